@@ -251,6 +251,23 @@ def run(chk):
         chk.ok("C08.chunks", rk, "readchunk() reads up to the next recorded boundary relative to the consumer cursor")
     else:
         chk.violation("C08.chunks", rk, "self._read_nowait(pos - self._cursor)", "boundary-relative read", "readchunk() does not stop at the recorded chunk boundary")
+    # the chunk iterator ends exactly at readchunk()'s end-of-stream value: (b"", True) is a chunk boundary with data still to come
+    ci = repo.func(MOD, "ChunkTupleAsyncStreamIterator.__anext__")
+    eofs = [r for r in ast.walk(rk.node) if isinstance(r, ast.Return) and r.value is not None and norm.raw(r.value).replace(" ", "") in ("(b'',False)", 'b"",False')]
+    stops = [r for r, _c in K.raises_in(ci, ("StopAsyncIteration",))]
+    if not stops or not eofs:
+        chk.violation("C08.iterend", ci, "if rv == (b'', False): raise StopAsyncIteration", "", "iter_chunks() has no end-of-stream test (or readchunk() no end-of-stream value)")
+    for r in stops:
+        cl = PC.pc(r)
+        whole = PC.has_lit(cl, [("$R == (b'', False)", True), ("(b'', False) == $R", True), ("$R != (b'', False)", False)], True) is not None
+        parts = (PC.has_lit(cl, [("$R[1]", False), ("$R[1] is False", True), ("$R[1] == False", True)], True) is not None
+                 and PC.has_lit(cl, [("$R[0] == b''", True), ("$R[0]", False), ("not $R[0]", True)], True) is not None)
+        if whole or parts:
+            chk.ok("C08.iterend", r, "iter_chunks() stops only on readchunk()'s end-of-stream value (b'', False)")
+        else:
+            chk.violation("C08.iterend", r, K.short(r), "(rv == (b'', False))",
+                          "iter_chunks() ends on something other than readchunk()'s end-of-stream value: readchunk() also returns (b'', True) - a chunk boundary with nothing buffered before it - while data is still to come, so the iteration reports end-of-stream early and the rest of the body is dropped",
+                          path_condition=norm.fmt_cnf(cl))
     # at_eof / is_eof
     ae = repo.func(MOD, f"{SR}.at_eof")
     r = [n for n in ast.walk(ae.node) if isinstance(n, ast.Return)]
